@@ -5,48 +5,6 @@ Import ListNotations.
 Require Import Base.Py Model.ScorePrims Gen.Gen_scores Model.Score Proofs.C18_prims.
 Open Scope Z_scope.
 
-Lemma nameless_FLAC : forall header trailer,
-  family0 C_FLAC header trailer -> no_foreign_marker C_FLAC header = true -> picks C_FLAC [] header trailer.
-Proof.
-  open_nameless; intro Hnfm; marker_facts Hnfm; pose proof Hfam as Hsw; decide_nameless Hsw.
-Qed.
-
-Lemma nameless_OggTheora : forall header trailer,
-  family0 C_OggTheora header trailer -> picks C_OggTheora [] header trailer.
-Proof.
-  open_nameless; destruct Hfam as [Hsw Hm]; decide_nameless Hsw.
-Qed.
-
-Lemma nameless_OggSpeex : forall header trailer,
-  family0 C_OggSpeex header trailer -> no_foreign_marker C_OggSpeex header = true -> picks C_OggSpeex [] header trailer.
-Proof.
-  open_nameless; intro Hnfm; marker_facts Hnfm; destruct Hfam as [Hsw Hm]; decide_nameless Hsw.
-Qed.
-
-Lemma nameless_OggVorbis : forall header trailer,
-  family0 C_OggVorbis header trailer -> no_foreign_marker C_OggVorbis header = true -> picks C_OggVorbis [] header trailer.
-Proof.
-  open_nameless; intro Hnfm; marker_facts Hnfm; destruct Hfam as [Hsw Hm]; decide_nameless Hsw.
-Qed.
-
-Lemma nameless_OggFLAC : forall header trailer,
-  family0 C_OggFLAC header trailer -> no_foreign_marker C_OggFLAC header = true -> picks C_OggFLAC [] header trailer.
-Proof.
-  open_nameless; intro Hnfm; marker_facts Hnfm; destruct Hfam as (Hsw & Hm1 & Hm2); pose proof (contains_tail _ _ _ Hm1) as Hm3; decide_nameless Hsw.
-Qed.
-
-Lemma nameless_OggOpus : forall header trailer,
-  family0 C_OggOpus header trailer -> no_foreign_marker C_OggOpus header = true -> picks C_OggOpus [] header trailer.
-Proof.
-  open_nameless; intro Hnfm; marker_facts Hnfm; destruct Hfam as [Hsw Hm]; decide_nameless Hsw.
-Qed.
-
-Lemma nameless_AIFF : forall header trailer,
-  family0 C_AIFF header trailer -> no_foreign_marker C_AIFF header = true -> picks C_AIFF [] header trailer.
-Proof.
-  open_nameless; intro Hnfm; marker_facts Hnfm; pose proof Hfam as Hsw; decide_nameless Hsw.
-Qed.
-
 Lemma nameless_MP4 : forall header trailer,
   family0 C_MP4 header trailer -> no_foreign_marker C_MP4 header = true -> picks C_MP4 [] header trailer.
 Proof.
